@@ -13,6 +13,12 @@
 (* Handle mode, hlen   Array._accessmode, Array._shape[0] (cached)         *)
 (*        mmode        MetaData._accessmode (follows mode when that is      *)
 (*                     assigned; can also be set on the metadata object)   *)
+(*        cx           the shared memory map kept open by an open_array()   *)
+(*                     context (or a suspended iterchunks generator):      *)
+(*                     [on, mode, len] - whether one is open, the access   *)
+(*                     mode it was opened with, and the array length it    *)
+(*                     was opened for.  While it is open every read and    *)
+(*                     element write of the handle goes through THAT map.  *)
 (* Control pc          program point inside a public call; one action per  *)
 (*                     file-system effect, in the order of the code        *)
 (* Ghost  ref, refmeta the NumPy / dict model the properties compare with  *)
@@ -30,12 +36,13 @@ CONSTANTS RowIds, MaxRows, RowBytes, MaxChunkLen, MaxChunks, TruncArgs,
           SetIdx, Keys, Vals, Ops, Faults, Crashes, InitLens, InitModes,
           InitMetas
 
-VARIABLES rows, tail, descr, readme, meta, mode, mmode, hlen, pc, ref, refmeta, out, ret, gone
+VARIABLES rows, tail, descr, readme, meta, mode, mmode, hlen, cx, pc, ref, refmeta, out, ret, gone
 
 disk == <<rows, tail, descr, readme, meta, gone>>
-vars == <<rows, tail, descr, readme, meta, mode, mmode, hlen, pc, ref, refmeta, out, ret, gone>>
+vars == <<rows, tail, descr, readme, meta, mode, mmode, hlen, cx, pc, ref, refmeta, out, ret, gone>>
 
 Idle == [op |-> "idle"]
+NoCtx == [on |-> FALSE, mode |-> "r", len |-> 0]
 Raises == <<-1>>                      \* "opening raises", as a row sequence
 NoMeta == [k \in Keys |-> 0]          \* 0 = key not present
 MRaises == [k \in Keys |-> -1]
@@ -84,7 +91,7 @@ Init == /\ \E n \in InitLens : \E r \in [1..n -> RowIds] :
                   /\ refmeta = m
                   /\ meta = IF MetaLen(m) = 0 THEN MAbsent ELSE MOk(m)
                   /\ readme = ROk(n, MetaLen(m) > 0)
-        /\ tail = 0 /\ mode \in InitModes /\ mmode = mode
+        /\ tail = 0 /\ mode \in InitModes /\ mmode = mode /\ cx = NoCtx
         /\ pc = Idle /\ out = "ok" /\ ret = 0 /\ gone = FALSE
 
 Return(o) == /\ pc' = Idle /\ out' = o
@@ -97,19 +104,19 @@ At(op, a) == pc.op = op /\ pc.at = a
 EnterUL(inc, retat) == pc' = [pc EXCEPT !.at = "ul_cache", !.inc = inc, !.ret = retat]
 UL_Cache == /\ pc.op # "idle" /\ pc.op # "crashed" /\ pc.at = "ul_cache"
             /\ hlen' = hlen + pc.inc /\ Goto("ul_jt")
-            /\ UNCHANGED <<disk, mode, mmode, ref, refmeta, out, ret>>
+            /\ UNCHANGED <<disk, mode, mmode, cx, ref, refmeta, out, ret>>
 UL_JsonTrunc == /\ pc.op # "idle" /\ pc.op # "crashed" /\ pc.at = "ul_jt"
                 /\ descr' = DTorn /\ Goto("ul_jw")
-                /\ UNCHANGED <<rows, tail, readme, meta, mode, mmode, hlen, ref, refmeta, out, ret, gone>>
+                /\ UNCHANGED <<rows, tail, readme, meta, mode, mmode, hlen, cx, ref, refmeta, out, ret, gone>>
 UL_JsonWrite == /\ pc.op # "idle" /\ pc.op # "crashed" /\ pc.at = "ul_jw"
                 /\ descr' = DOk(hlen) /\ Goto("ul_rt")
-                /\ UNCHANGED <<rows, tail, readme, meta, mode, mmode, hlen, ref, refmeta, out, ret, gone>>
+                /\ UNCHANGED <<rows, tail, readme, meta, mode, mmode, hlen, cx, ref, refmeta, out, ret, gone>>
 UL_ReadmeTrunc == /\ pc.op # "idle" /\ pc.op # "crashed" /\ pc.at = "ul_rt"
                   /\ readme' = RTorn /\ Goto("ul_rw")
-                  /\ UNCHANGED <<rows, tail, descr, meta, mode, mmode, hlen, ref, refmeta, out, ret, gone>>
+                  /\ UNCHANGED <<rows, tail, descr, meta, mode, mmode, hlen, cx, ref, refmeta, out, ret, gone>>
 UL_ReadmeWrite == /\ pc.op # "idle" /\ pc.op # "crashed" /\ pc.at = "ul_rw"
                   /\ readme' = CurStamp /\ Goto(pc.ret)
-                  /\ UNCHANGED <<rows, tail, descr, meta, mode, mmode, hlen, ref, refmeta, out, ret, gone>>
+                  /\ UNCHANGED <<rows, tail, descr, meta, mode, mmode, hlen, cx, ref, refmeta, out, ret, gone>>
 
 (***************************************************************************)
 (* iterappend / append                                                     *)
@@ -123,7 +130,7 @@ IA_Call(cs, f, via) ==
   /\ pc' = [op |-> "ia", at |-> "checks", cs |-> cs, f |-> f, via |-> via, idx |-> 1, done |-> 0,
             inc |-> 0, ret |-> "", pre |-> rows,
             legit |-> {rows \o Flat(p) : p \in CLPrefixes(cs)}, legitmeta |-> {refmeta}]
-  /\ UNCHANGED <<disk, mode, mmode, hlen, ref, refmeta, out, ret>>
+  /\ UNCHANGED <<disk, mode, mmode, hlen, cx, ref, refmeta, out, ret>>
 
 (* a single bad item given to append(): modelled as iterappend of one bad item *)
 IA_CallBadAppend(kd) ==
@@ -131,15 +138,16 @@ IA_CallBadAppend(kd) ==
   /\ pc' = [op |-> "ia", at |-> "checks", cs |-> <<>>, f |-> [kind |-> kd, at |-> 1], via |-> "append",
             idx |-> 1, done |-> 0, inc |-> 0, ret |-> "", pre |-> rows,
             legit |-> {rows}, legitmeta |-> {refmeta}]
-  /\ UNCHANGED <<disk, mode, mmode, hlen, ref, refmeta, out, ret>>
+  /\ UNCHANGED <<disk, mode, mmode, hlen, cx, ref, refmeta, out, ret>>
 
 (* accessmode check, iterability check, check_arraywriteable *)
 IA_Checks == /\ At("ia", "checks")
              /\ IF mode # "r+" THEN Return("OSError")
                 ELSE IF pc.via = "noniter" THEN Return("TypeError")
+                ELSE IF cx.on /\ cx.mode # "r+" THEN Return("OSError")    \* check_arraywriteable looks at the open map
                 ELSE IF hlen = 0 THEN Goto("e_next") /\ out' = out
                 ELSE Goto("next") /\ out' = out
-             /\ UNCHANGED <<disk, mode, mmode, hlen, ref, refmeta, ret>>
+             /\ UNCHANGED <<disk, mode, mmode, hlen, cx, ref, refmeta, ret>>
 
 BadItemHere == pc.f.kind \in {"raise", "shape", "rank", "conv"} /\ pc.f.at = pc.idx
 NoMore == pc.idx > Len(pc.cs)
@@ -151,7 +159,7 @@ IA_EmptyNext ==
      ELSE IF BadItemHere THEN Return("Raises")           \* _checkarrayforappend rejects it
      ELSE IF NoMore THEN Return("ok")                     \* empty iterable: nothing to do
      ELSE Goto("e_write") /\ out' = out
-  /\ UNCHANGED <<disk, mode, mmode, hlen, ref, refmeta, ret>>
+  /\ UNCHANGED <<disk, mode, mmode, hlen, cx, ref, refmeta, ret>>
 
 WriteFaultHere == pc.f.kind = "write" /\ pc.f.at = pc.idx
 
@@ -163,19 +171,19 @@ IA_EmptyWrite ==
           /\ Goto("e_rec") /\ UNCHANGED ref
      ELSE /\ rows' = c /\ tail' = 0 /\ ref' = ref \o c
           /\ pc' = [pc EXCEPT !.at = "ul_cache", !.inc = Len(c), !.ret = "next", !.idx = pc.idx + 1]
-  /\ UNCHANGED <<descr, readme, meta, mode, mmode, hlen, refmeta, out, ret, gone>>
+  /\ UNCHANGED <<descr, readme, meta, mode, mmode, hlen, cx, refmeta, out, ret, gone>>
 
 (* recovery of the empty path: cut the file back to nothing, raise *)
 IA_EmptyRecover == /\ At("ia", "e_rec")
                    /\ rows' = <<>> /\ tail' = 0 /\ Return("AppendDataError")
-                   /\ UNCHANGED <<descr, readme, meta, mode, mmode, hlen, ref, refmeta, ret, gone>>
+                   /\ UNCHANGED <<descr, readme, meta, mode, mmode, hlen, cx, ref, refmeta, ret, gone>>
 
 (* the for-loop of iterappend: next(), _checkarrayforappend, seek/tofile/flush *)
 IA_Next == /\ At("ia", "next")
            /\ IF BadItemHere THEN Goto("ul_cache_rec")
               ELSE IF NoMore THEN pc' = [pc EXCEPT !.at = "ul_cache", !.inc = pc.done, !.ret = "done"]
               ELSE Goto("write")
-           /\ UNCHANGED <<disk, mode, mmode, hlen, ref, refmeta, out, ret>>
+           /\ UNCHANGED <<disk, mode, mmode, hlen, cx, ref, refmeta, out, ret>>
 
 IA_Write == /\ At("ia", "write")
             /\ LET c == pc.cs[pc.idx] IN
@@ -184,18 +192,18 @@ IA_Write == /\ At("ia", "write")
                     /\ Goto("ul_cache_rec") /\ UNCHANGED ref
                ELSE /\ rows' = rows \o c /\ tail' = 0 /\ ref' = ref \o c
                     /\ pc' = [pc EXCEPT !.at = "next", !.idx = pc.idx + 1, !.done = pc.done + Len(c)]
-            /\ UNCHANGED <<descr, readme, meta, mode, mmode, hlen, refmeta, out, ret, gone>>
+            /\ UNCHANGED <<descr, readme, meta, mode, mmode, hlen, cx, refmeta, out, ret, gone>>
 
 (* except-branch: flush, _update_len(done), fd.truncate(size*itemsize), raise *)
 IA_RecStart == /\ At("ia", "ul_cache_rec")
                /\ pc' = [pc EXCEPT !.at = "ul_cache", !.inc = pc.done, !.ret = "rec_trunc"]
-               /\ UNCHANGED <<disk, mode, mmode, hlen, ref, refmeta, out, ret>>
+               /\ UNCHANGED <<disk, mode, mmode, hlen, cx, ref, refmeta, out, ret>>
 IA_RecTruncate == /\ At("ia", "rec_trunc")
                   /\ rows' = SubSeq(rows, 1, hlen) /\ tail' = 0
                   /\ Return("AppendDataError")
-                  /\ UNCHANGED <<descr, readme, meta, mode, mmode, hlen, ref, refmeta, ret, gone>>
+                  /\ UNCHANGED <<descr, readme, meta, mode, mmode, hlen, cx, ref, refmeta, ret, gone>>
 IA_Done == /\ At("ia", "done") /\ Return("ok")
-           /\ UNCHANGED <<disk, mode, mmode, hlen, ref, refmeta, ret>>
+           /\ UNCHANGED <<disk, mode, mmode, hlen, cx, ref, refmeta, ret>>
 
 (* a process death in the middle of a data write leaves any prefix of it *)
 IA_WriteCrash(k, b) ==
@@ -204,7 +212,7 @@ IA_WriteCrash(k, b) ==
        /\ k * RowBytes + b < Len(c) * RowBytes
        /\ rows' = (IF pc.at = "write" THEN rows ELSE <<>>) \o SubSeq(c, 1, k) /\ tail' = b
   /\ pc' = [op |-> "crashed", legit |-> pc.legit, legitmeta |-> pc.legitmeta]
-  /\ UNCHANGED <<descr, readme, meta, mode, mmode, hlen, ref, refmeta, out, ret, gone>>
+  /\ UNCHANGED <<descr, readme, meta, mode, mmode, hlen, cx, ref, refmeta, out, ret, gone>>
 
 (***************************************************************************)
 (* truncate_array(a, index)                                                *)
@@ -212,11 +220,12 @@ IA_WriteCrash(k, b) ==
 NonInt == 777777
 TR_Call(i) ==
   /\ pc = Idle /\ ~gone /\ "truncate" \in Ops /\ i \in TruncArgs \cup {NonInt}
+  /\ ~cx.on        \* cutting the file under an open map is not modelled (reads beyond the end of the file)
   /\ LET nl == IF i = NonInt THEN -1 ELSE TruncLen(i, Len(rows)) IN
      pc' = [op |-> "tr", at |-> "checks", i |-> i, inc |-> 0, ret |-> "", pre |-> rows,
             legit |-> {rows} \cup (IF 0 <= nl /\ nl < Len(rows) THEN {SubSeq(rows, 1, nl)} ELSE {}),
             legitmeta |-> {refmeta}]
-  /\ UNCHANGED <<disk, mode, mmode, hlen, ref, refmeta, out, ret>>
+  /\ UNCHANGED <<disk, mode, mmode, hlen, cx, ref, refmeta, out, ret>>
 TR_Checks ==
   /\ At("tr", "checks")
   /\ IF mode # "r+" THEN Return("OSError")
@@ -224,51 +233,70 @@ TR_Checks ==
      ELSE LET nl == TruncLen(pc.i, descr.len) IN
           IF 0 <= nl /\ nl < hlen THEN pc' = [pc EXCEPT !.at = "os", !.inc = nl - hlen] /\ out' = out
           ELSE Return("IndexError")
-  /\ UNCHANGED <<disk, mode, mmode, hlen, ref, refmeta, ret>>
+  /\ UNCHANGED <<disk, mode, mmode, hlen, cx, ref, refmeta, ret>>
 TR_OsTruncate ==
   /\ At("tr", "os")
   /\ rows' = SubSeq(rows, 1, hlen + pc.inc) /\ tail' = 0
   /\ ref' = SubSeq(ref, 1, hlen + pc.inc)
   /\ pc' = [pc EXCEPT !.at = "ul_cache", !.ret = "done"]
-  /\ UNCHANGED <<descr, readme, meta, mode, mmode, hlen, refmeta, out, ret, gone>>
+  /\ UNCHANGED <<descr, readme, meta, mode, mmode, hlen, cx, refmeta, out, ret, gone>>
 TR_Done == /\ At("tr", "done") /\ Return("ok")
-           /\ UNCHANGED <<disk, mode, mmode, hlen, ref, refmeta, ret>>
+           /\ UNCHANGED <<disk, mode, mmode, hlen, cx, ref, refmeta, ret>>
 
 (***************************************************************************)
 (* a[i] = row, accessmode assignment, reopening                            *)
 (***************************************************************************)
 SetItem(i, id) ==
   /\ pc = Idle /\ ~gone /\ "setitem" \in Ops /\ i \in SetIdx /\ id \in RowIds
-  /\ LET p == NormIndex(i, Len(rows)) IN
-     IF mode # "r+" THEN out' = "OSError" /\ UNCHANGED <<rows, ref>>
+  /\ LET p == NormIndex(i, IF cx.on THEN cx.len ELSE Len(rows)) IN
+     (* __setitem__ asks check_arraywriteable, which looks at the map that is open: inside a context *)
+     (* the mode the context was opened with decides, not the handle's (WriteThroughOpenMap)        *)
+     IF (IF cx.on THEN cx.mode # "r+" ELSE mode # "r+") THEN out' = "OSError" /\ UNCHANGED <<rows, ref>>
      ELSE IF p = IndexErr THEN out' = "IndexError" /\ UNCHANGED <<rows, ref>>
      ELSE /\ rows' = [rows EXCEPT ![p + 1] = id] /\ ref' = [ref EXCEPT ![p + 1] = id]
           /\ out' = "ok"
-  /\ UNCHANGED <<tail, descr, readme, meta, mode, mmode, hlen, pc, refmeta, ret, gone>>
+  /\ UNCHANGED <<tail, descr, readme, meta, mode, mmode, hlen, cx, pc, refmeta, ret, gone>>
 
 SetMode(m) == /\ pc = Idle /\ ~gone /\ "mode" \in Ops /\ m \in {"r", "r+", "w"}
               /\ IF m = "w" THEN out' = "ValueError" /\ UNCHANGED <<mode, mmode>>
                  ELSE mode' = m /\ mmode' = m /\ out' = "ok"
-              /\ UNCHANGED <<disk, hlen, pc, ref, refmeta, ret>>
+              /\ UNCHANGED <<disk, hlen, cx, pc, ref, refmeta, ret>>
 
 (* a.metadata.accessmode = m: the metadata object alone *)
 SetMetaMode(m) == /\ pc = Idle /\ ~gone /\ "metamode" \in Ops /\ m \in {"r", "r+"}
                   /\ mmode' = m /\ out' = "ok"
-                  /\ UNCHANGED <<disk, mode, hlen, pc, ref, refmeta, ret>>
+                  /\ UNCHANGED <<disk, mode, hlen, cx, pc, ref, refmeta, ret>>
 
-Reopen(m) == /\ pc = Idle /\ ~gone /\ "reopen" \in Ops /\ m \in {"r", "r+"}
+Reopen(m) == /\ pc = Idle /\ ~gone /\ "reopen" \in Ops /\ m \in {"r", "r+"} /\ ~cx.on
              /\ mode' = m /\ mmode' = m /\ hlen' = descr.len /\ out' = "ok"
-             /\ UNCHANGED <<disk, pc, ref, refmeta, ret>>
+             /\ UNCHANGED <<disk, cx, pc, ref, refmeta, ret>>
+
+(***************************************************************************)
+(* with a.open_array(accessmode=m): ... / a suspended iterchunks generator: *)
+(* the first opener creates the map (for the length the handle knows, in    *)
+(* the requested or the handle's mode); nested openers reuse it.  Appends   *)
+(* made while it is open reach the file and the description at once; the    *)
+(* map itself keeps the length it was opened for (LiveView).                *)
+(***************************************************************************)
+EnterCtx(m) == /\ pc = Idle /\ ~gone /\ "ctx" \in Ops /\ ~cx.on /\ m \in {"default", "r", "r+"}
+               /\ cx' = [on |-> TRUE, mode |-> (IF m = "default" THEN mode ELSE m), len |-> hlen]
+               /\ out' = "ok"
+               /\ UNCHANGED <<disk, mode, mmode, hlen, pc, ref, refmeta, ret>>
+ExitCtx == /\ pc = Idle /\ ~gone /\ "ctx" \in Ops /\ cx.on
+           /\ cx' = NoCtx /\ out' = "ok"
+           /\ UNCHANGED <<disk, mode, mmode, hlen, pc, ref, refmeta, ret>>
+(* what a[:] of the handle shows: inside a context the rows the map was opened for *)
+LiveView == IF cx.on THEN SubSeq(rows, 1, cx.len) ELSE rows
 
 (***************************************************************************)
 (* delete_array(a): refuses read-only handles; unlinks Darr's files, rmdir  *)
 (***************************************************************************)
-Delete == /\ pc = Idle /\ "delete" \in Ops /\ ~gone
+Delete == /\ pc = Idle /\ "delete" \in Ops /\ ~gone /\ ~cx.on
           /\ IF mode # "r+" THEN out' = "OSError" /\ UNCHANGED <<disk, ref, refmeta>>
              ELSE /\ gone' = TRUE /\ rows' = <<>> /\ tail' = 0 /\ descr' = DTorn
                   /\ readme' = [k |-> "absent"] /\ meta' = MAbsent
                   /\ ref' = <<>> /\ refmeta' = NoMeta /\ out' = "ok"
-          /\ UNCHANGED <<mode, mmode, hlen, pc, ret>>
+          /\ UNCHANGED <<mode, mmode, hlen, cx, pc, ret>>
 
 (***************************************************************************)
 (* metadata                                                                *)
@@ -285,7 +313,7 @@ M_Call(kd, k, v) ==
      pc' = [op |-> "m", at |-> "checks", kd |-> kd, key |-> k, v |-> v, new |-> NoMeta,
             inc |-> 0, ret |-> "",
             legit |-> {rows}, legitmeta |-> {refmeta} \cup posts]
-  /\ UNCHANGED <<disk, mode, mmode, hlen, ref, refmeta, out, ret>>
+  /\ UNCHANGED <<disk, mode, mmode, hlen, cx, ref, refmeta, out, ret>>
 
 (* mode check, read of the file, the dict operation *)
 M_Checks ==
@@ -316,33 +344,33 @@ M_Checks ==
                  ELSE \E q \in Keys : /\ cur[q] # 0
                         /\ pc' = [pc EXCEPT !.at = "remove", !.key = q, !.new = [cur EXCEPT ![q] = 0]]
                         /\ refmeta' = [cur EXCEPT ![q] = 0] /\ ret' = cur[q] /\ out' = out
-  /\ UNCHANGED <<disk, mode, mmode, hlen, ref>>
+  /\ UNCHANGED <<disk, mode, mmode, hlen, cx, ref>>
 
 (* after a removal: rewrite when something is left, else unlink + README *)
 M_Remove == /\ At("m", "remove")
             /\ IF MetaLen(pc.new) > 0 THEN pc' = [pc EXCEPT !.at = "trunc", !.ret = "done"]
                ELSE Goto("unlink")
-            /\ UNCHANGED <<disk, mode, mmode, hlen, ref, refmeta, out, ret>>
+            /\ UNCHANGED <<disk, mode, mmode, hlen, cx, ref, refmeta, out, ret>>
 M_Trunc == /\ At("m", "trunc") /\ meta' = MTorn /\ Goto("write")
-           /\ UNCHANGED <<rows, tail, descr, readme, mode, mmode, hlen, ref, refmeta, out, ret, gone>>
+           /\ UNCHANGED <<rows, tail, descr, readme, mode, mmode, hlen, cx, ref, refmeta, out, ret, gone>>
 M_Write == /\ At("m", "write") /\ meta' = MOk(pc.new) /\ Goto(pc.ret)
-           /\ UNCHANGED <<rows, tail, descr, readme, mode, mmode, hlen, ref, refmeta, out, ret, gone>>
+           /\ UNCHANGED <<rows, tail, descr, readme, mode, mmode, hlen, cx, ref, refmeta, out, ret, gone>>
 M_Unlink == /\ At("m", "unlink") /\ meta' = MAbsent /\ Goto("cb")
-            /\ UNCHANGED <<rows, tail, descr, readme, mode, mmode, hlen, ref, refmeta, out, ret, gone>>
+            /\ UNCHANGED <<rows, tail, descr, readme, mode, mmode, hlen, cx, ref, refmeta, out, ret, gone>>
 (* callatfilecreationordeletion = Array._update_readmetxt *)
 RM_Trunc == /\ At("m", "cb") /\ readme' = RTorn /\ Goto("cbw")
-            /\ UNCHANGED <<rows, tail, descr, meta, mode, mmode, hlen, ref, refmeta, out, ret, gone>>
+            /\ UNCHANGED <<rows, tail, descr, meta, mode, mmode, hlen, cx, ref, refmeta, out, ret, gone>>
 RM_Write == /\ At("m", "cbw") /\ readme' = CurStamp /\ Goto("done")
-            /\ UNCHANGED <<rows, tail, descr, meta, mode, mmode, hlen, ref, refmeta, out, ret, gone>>
+            /\ UNCHANGED <<rows, tail, descr, meta, mode, mmode, hlen, cx, ref, refmeta, out, ret, gone>>
 M_Done == /\ At("m", "done") /\ Return("ok")
-          /\ UNCHANGED <<disk, mode, mmode, hlen, ref, refmeta, ret>>
+          /\ UNCHANGED <<disk, mode, mmode, hlen, cx, ref, refmeta, ret>>
 
 (***************************************************************************)
 (* process death                                                           *)
 (***************************************************************************)
 Crash == /\ Crashes /\ pc.op \notin {"idle", "crashed"}
          /\ pc' = [op |-> "crashed", legit |-> pc.legit, legitmeta |-> pc.legitmeta]
-         /\ UNCHANGED <<disk, mode, mmode, hlen, ref, refmeta, out, ret>>
+         /\ UNCHANGED <<disk, mode, mmode, hlen, cx, ref, refmeta, out, ret>>
 
 Next == \/ \E cs \in ChunkLists : \E f \in FaultPlans(cs) :
              \E via \in {"append", "iterappend"} : IA_Call(cs, f, via)
@@ -361,6 +389,8 @@ Next == \/ \E cs \in ChunkLists : \E f \in FaultPlans(cs) :
         \/ \E kd \in MKinds, k \in Keys, v \in Vals : M_Call(kd, k, v)
         \/ M_Checks \/ M_Remove \/ M_Trunc \/ M_Write \/ M_Unlink \/ RM_Trunc \/ RM_Write \/ M_Done
         \/ Delete
+        \/ \E m \in {"default", "r", "r+"} : EnterCtx(m)
+        \/ ExitCtx
         \/ Crash
 
 Spec == Init /\ [][Next]_vars
@@ -389,11 +419,15 @@ Meta_Model == Quiescent => /\ MetaOutcome = refmeta
 FailedAppendExact == (Quiescent /\ out = "AppendDataError") =>
                         /\ rows = ref /\ tail = 0 /\ descr = DOk(Len(ref)) /\ hlen = Len(ref)
 (* C11 *)
-ReadOnly == [][(mode = "r" /\ mode' = "r" /\ mmode = "r" /\ mmode' = "r") => UNCHANGED disk]_vars
+ReadOnly == [][(mode = "r" /\ mode' = "r" /\ mmode = "r" /\ mmode' = "r" /\ ~cx.on) => UNCHANGED disk]_vars
 (* C17 *)
 CrashSafe == pc.op = "crashed" =>
                /\ (OpenOutcome = Raises \/ OpenOutcome \in pc.legit)
                /\ (MetaOutcome = MRaises \/ MetaOutcome \in pc.legitmeta)
+(* C11 speaks of handles without an open context; with one open, element writes follow the mode   *)
+(* of the context (WriteThroughOpenMap): TLC must find ReadOnlyAlways violated when "ctx" \in Ops   *)
+ReadOnlyAlways == [][(mode = "r" /\ mode' = "r" /\ mmode = "r" /\ mmode' = "r") => UNCHANGED disk]_vars
+CtxOK == cx.on => (cx.len <= Len(rows) /\ cx.len <= hlen)
 TypeOK == /\ tail \in 0..(RowBytes - 1) /\ hlen \in 0..MaxRows
           /\ Len(rows) <= MaxRows + MaxChunkLen
 =============================================================================
